@@ -302,6 +302,7 @@ def install(w):
         if len(args) > 2:
             raise Unsupported("dict.pop with default", node)
         ex.raise_if(st, z3.Not(present), KeyError, node)
+        ex.bump_treever(st)
         v = Val(st.arr("$dmap")[oid][k.t], getattr(d.ty, "v", None))
         st.heap["$dhas"] = z3.Store(has, oid, z3.Store(has[oid], k.t, FALSE))
         kl, ke = st.arr("$klen"), st.arr("$kel")
